@@ -118,7 +118,9 @@ func cmdSelftest(args []string) int {
 		w.q = newQueue()
 		interp := map[string]string{}
 		for _, fn := range fns {
+			m.trace = os.Getenv("VERIF_SELFTRACE") == fn.Name()
 			kind, msg := m.runPath(fn, workItem{})
+			m.trace = false
 			if kind != endDone {
 				fmt.Fprintf(os.Stderr, "SELFTEST-FAIL %s: interpreter ended with %s: %s\n", fn.Name(), kind, msg)
 				bad++
